@@ -646,6 +646,14 @@ func (c *Client) Start() (addr net.Addr, err error) {
 	}
 	if c.config.GRPCBrokerMultiplex {
 		env = append(env, fmt.Sprintf("%s=true", envMultiplexGRPC))
+	} else {
+		// Mask a value inherited from the host's own environment (a host that
+		// is itself a plugin): the plugin must follow this client's config.
+		env = append(env, fmt.Sprintf("%s=", envMultiplexGRPC))
+	}
+	if !c.config.AutoMTLS {
+		// Likewise, never pass on a client certificate this client did not make.
+		env = append(env, "PLUGIN_CLIENT_CERT=")
 	}
 
 	cmd := c.config.Cmd
